@@ -3,7 +3,6 @@ import math
 from typing import Tuple, Union
 
 import numpy as np
-import pandas as pd
 from scipy.special import factorial2
 
 from . import xl, xlerrors, xlcriteria, func_xltypes
@@ -660,8 +659,15 @@ def SUMPRODUCT(
             raise xlerrors.NaExcelError(
                 "Excel Errors are present in the sumproduct items.")
 
-    sumproduct = pd.concat(arrays, axis=1)
-    return sumproduct.prod(axis=1).sum()
+    # Multiply the corresponding entries of the arrays (row by row, column by
+    # column) and add up those products.
+    total = 0
+    for items in zip(*[array.flat for array in arrays]):
+        product = 1
+        for item in items:
+            product = product * item
+        total = total + product
+    return total
 
 
 @xl.register()
